@@ -73,8 +73,10 @@ ASSUMPTIONS = [
     "Tabulated range of a phase = [minPossibleTemperature[0], maxPossibleTemperature[0]] as used by setExtrapolate.",
     "Spline knots are observed through FreeEnergy._interpolationPoints (getattr guard); without them the "
     "derivative sub-oracles fall back to centred stencils with REL_FD_BLIND and the sharp p=-V bound is skipped.",
-    "If a table has left its branch (C11 finding: hop at a saddle-node), p=-V and alpha-closed are not evaluated "
-    "beyond the hop (labelled); the internal-consistency sub-oracles still are.",
+    "If a table has left its branch (C11 finding: hop at a true end of the phase) the table is discontinuous and the "
+    "tabulated range of that phase is meaningless (c_s^2 at its end ~0 or negative, extrapolation NaN/overflow): that "
+    "phase is skipped and labelled c11-hop-present (the defect is C11's, reported there); an exception of setExtrapolate "
+    "is excused only in that situation.",
 ]
 EXHAUSTIVE_SUBDOMAINS = []
 
@@ -234,7 +236,9 @@ def fd_in_piece(f, T, a, b, kind):
 # construction
 # ---------------------------------------------------------------------------
 def build(case, v):
-    """Returns (thermo, cf, V, tol, dT, Tn) or None (outcome labelled)."""
+    """Returns (thermo, cf, V, tol, dT, Tn, err) or None (outcome labelled).  err is an exception raised by the
+    extrapolation set-up AFTER both phases were traced (decided upon in check_case: after a C11 hop the
+    table is discontinuous, c_s^2 at its end can be ~0 or negative and pow() overflows)."""
     import WallGo
     from WallGo import WallGoError
 
@@ -242,18 +246,28 @@ def build(case, v):
     Tn = zp.nucleation_temperature(spec)
     if case["mode"] == "manager":
         sp = dict(spec, tscale_factor=case["tscale_factor"])
+        cfg = {"phaseTracerTol": case["tol"]}
+        manager = zp.new_manager(cfg)
+        err = None
         try:
-            manager, model, cf, rel = zp.setup_manager(sp, {"phaseTracerTol": case["tol"]})
+            manager, model, cf, rel = zp.setup_manager(sp, cfg, manager=manager)
         except WallGoError as exc:
             v.label("outcome:setup:WallGoError:" + str(exc)[:30].replace(" ", "_"))
             return None
         except (AssertionError, RuntimeError) as exc:
             v.label("outcome:setup:" + type(exc).__name__)
             return None
+        except (OverflowError, ZeroDivisionError, FloatingPointError, ValueError) as exc:
+            th = getattr(manager, "thermodynamics", None)
+            if th is None or not (th.freeEnergyHigh.hasInterpolation() and th.freeEnergyLow.hasInterpolation()):
+                raise
+            err = exc
+            model = manager.model
+            cf = zp.closed(sp)
         th = manager.thermodynamics
         V = model.getEffectivePotential()
         dT = V.derivativeSettings.temperatureVariationScale * case["tol"] ** 0.25
-        return th, cf, V, case["tol"], dT, Tn
+        return th, cf, V, case["tol"], dT, Tn, err
     V, model, cf = zp.configured_potential(spec)
     th = WallGo.Thermodynamics(V, float(Tn), WallGo.Fields(cf.phase("low", Tn)), WallGo.Fields(cf.phase("high", Tn)))
     th.freeEnergyHigh.disableAdaptiveInterpolation()
@@ -262,11 +276,15 @@ def build(case, v):
         for which, fe in (("high", th.freeEnergyHigh), ("low", th.freeEnergyLow)):
             a, b = case["ranges"][which]
             fe.tracePhase(a, b, case["dT"], rTol=case["rTol"], paranoid=case["paranoid"])
-        th.setExtrapolate()
     except (AssertionError, RuntimeError) as exc:
         v.label("outcome:trace:" + type(exc).__name__)
         return None
-    return th, cf, V, case["rTol"], case["dT"], Tn
+    err = None
+    try:
+        th.setExtrapolate()
+    except (OverflowError, ZeroDivisionError, FloatingPointError, ValueError) as exc:
+        err = exc
+    return th, cf, V, case["rTol"], case["dT"], Tn, err
 
 
 # ---------------------------------------------------------------------------
@@ -301,8 +319,21 @@ def check_case(case) -> Verdict:
     built = build(case, v)
     if built is None:
         return v
-    th, cf, V, tol, dT, Tn = built
+    th, cf, V, tol, dT, Tn, err = built
     v.label(f"tol:{tol:g}")
+    if err is not None:
+        # only excusable if a table has left its branch (C11 finding); otherwise it is a crash of WallGo
+        hop = False
+        for name, fe in (("high", th.freeEnergyHigh), ("low", th.freeEnergyLow)):
+            tab = zp.table_of(fe)
+            if tab is not None:
+                sc = c11.scan_nodes(Verdict(), V, cf, spec, name, zp.existence_ext(cf, name), tab[0], tab[1], tol,
+                                    case.get("paranoid", True), Tn)
+                hop = hop or sc.hop_at is not None
+        if hop:
+            v.label("outcome:extrapolation-failed-after-c11-hop:" + type(err).__name__)
+            return v
+        raise err
     phases = {"high": Phase(th, "high"), "low": Phase(th, "low")}
     cls0 = f"{spec['family']} mode={case['mode']}"
     blind = any(ph.knots is None for ph in phases.values())
@@ -324,6 +355,7 @@ def check_case(case) -> Verdict:
             v.label(f"c11-hop-present:{name}")
         v.label(f"flags:{name}:{ph.fe.minPossibleTemperature[1]},{ph.fe.maxPossibleTemperature[1]}")
 
+    bad = {name for name, sc in scans.items() if sc.hop_at is not None}
     nontrivial = False
     worst = {}
     # ---- (iv) at the nodes: tabulated V inside the range = V at the closed-form minimum ---------------
@@ -370,7 +402,7 @@ def check_case(case) -> Verdict:
     ideal = {}
     for name, kind, T in _temps_for(case, phases):
         ph = phases[name]
-        if not (T > 0 and math.isfinite(T)):
+        if not (T > 0 and math.isfinite(T)) or name in bad:
             continue
         region = "below" if T < ph.TMin else "above" if T > ph.TMax else "inside"
         near = min(abs(T - ph.TMin) / ph.TMin, abs(T - ph.TMax) / ph.TMax) <= 1e-2
@@ -421,16 +453,6 @@ def check_case(case) -> Verdict:
         # ---- (iv) p = -V at the closed-form minimum, inside the range -----------------------------
         if region == "inside":
             sc = scans.get(name)
-            if sc is not None and sc.hop_at is not None:
-                k = sc.hop_at
-                # closed forms only on the side of the hop that contains Tn
-                # closed forms apply only on the side of the hop that contains Tn, and the spline rings for
-                # some tens of knots in front of the discontinuity of the tabulated values (decay 0.27/knot)
-                nk = ph.knots.size
-                if (ph.knots[k] > Tn and T >= ph.knots[max(k - 40, 0)]) or \
-                        (ph.knots[k] < Tn and T <= ph.knots[min(k + 40, nk - 1)]):
-                    v.label("p-minus-V:skipped-near-hop")
-                    continue
             bt = zp.branch_thermo(cf, name, exs[name], T)
             if bt is None:
                 v.label("p-minus-V:no-closed-form")
@@ -477,6 +499,8 @@ def check_case(case) -> Verdict:
         for endname, X in (("min", ph.TMin), ("max", ph.TMax)):
             u = case["cont"][ic % len(case["cont"])]
             ic += 1
+            if name in bad:
+                continue
             # inner points must stay inside the spline piece adjacent to the end (polynomial there)
             if ph.knots is not None:
                 a_, b_, _k = ph.piece(X * (1 + 1e-12) if endname == "min" else X * (1 - 1e-12))
@@ -512,11 +536,14 @@ def check_case(case) -> Verdict:
 
     # ---- (v) alpha(Tn) -----------------------------------------------------------
     H, L = phases["high"], phases["low"]
-    try:
-        alpha = float(th.alpha(Tn))
-    except WallGoError:
-        alpha = None
-        v.label("alpha:WallGoError")
+    alpha = None
+    if bad:
+        v.label("alpha:skipped-after-hop")
+    else:
+        try:
+            alpha = float(th.alpha(Tn))
+        except WallGoError:
+            v.label("alpha:WallGoError")
     if alpha is not None:
         v.checked("alpha-formula")
         q = {"pH": float(H.p(Tn)), "dH": float(H.dp(Tn)), "pL": float(L.p(Tn)), "dL": float(L.dp(Tn)),
